@@ -994,7 +994,7 @@ fn main() {
                 i += 1;
             }
             "--stub" => {
-                stubs = args[i + 1].split('|').map(|x| x.trim().to_string()).filter(|x| !x.is_empty()).collect();
+                stubs = args[i + 1].split("%%").map(|x| x.trim().to_string()).filter(|x| !x.is_empty()).collect();
                 i += 2;
             }
             a => {
@@ -1202,7 +1202,7 @@ fn main() {
                             }
                         }
                     }
-                    output.push_str(&format!("// vx:slice {} {} (src lines 0-0) STUBBED — UNVERIFIED\n    if vx_stub_cond() {{ return vx_stub_diverge(); }}\n{}", d.file, stub_key, lets));
+                    output.push_str(&format!("// vx:slice {} {} (src lines 0-0) STUBBED — UNVERIFIED\n    return vx_stub_diverge();\n{}", d.file, stub_key, lets));
                     fn_maps.push(serde_json::json!({"selector": d.selector, "file": d.file, "slice": true, "name": last_text_fn, "stubbed": true,
                         "src_lines": [0,0], "out_lines": [0,0], "awaits_erased": 0, "closures": 0, "loops": 0, "has_requires": false, "edits": {}}));
                     continue;
